@@ -88,7 +88,11 @@ func (propC20) Gen(seed uint64, tier string) *Case {
 		}
 		switch r.Intn(9) {
 		case 7:
-			cc.Steps = append(cc.Steps, CloneStep{K: "spread", A: a})
+			if r.Chance(0.3) {
+				cc.Steps = append(cc.Steps, CloneStep{K: "tag", A: a})
+			} else {
+				cc.Steps = append(cc.Steps, CloneStep{K: "spread", A: a})
+			}
 		case 8:
 			cc.Steps = append(cc.Steps, CloneStep{K: "nil", A: a})
 		case 0:
@@ -118,6 +122,48 @@ type cloneActor struct {
 	atClone  []string // parent's rendered tokens when the clone was taken
 	spare    bool     // parent had spare capacity at clone time
 	appended bool
+}
+
+// rawTokens observes a Statement without go/format: a NoFormat File containing only that
+// statement renders whatever the items produce, valid Go or not (the scanner tokenises any
+// text), so actors can be compared with the model even when their chain is not an expression.
+func rawTokens(st *jen.Statement) (toks []string, err error) {
+	defer func() {
+		if p := recover(); p != nil {
+			err = fmt.Errorf("panic: %v", p)
+		}
+	}()
+	f := jen.NewFile("x")
+	f.NoFormat = true
+	f.Add(st)
+	var buf bytes.Buffer
+	if err := f.Render(&buf); err != nil {
+		return nil, err
+	}
+	all := scanTokens(buf.Bytes())
+	if len(all) >= 2 && all[0] == "package" {
+		all = all[2:]
+	}
+	// skip the import block the File writes for qualified identifiers
+	if len(all) > 0 && all[0] == "import" {
+		i := 1
+		if i < len(all) && all[i] == "(" {
+			for i < len(all) && all[i] != ")" {
+				i++
+			}
+			i++
+		} else {
+			if i < len(all) && !strings.HasPrefix(all[i], "\"") {
+				i++ // alias
+			}
+			i++ // path
+		}
+		if i > len(all) {
+			i = len(all)
+		}
+		all = all[i:]
+	}
+	return all, nil
 }
 
 func scanTokens(src []byte) []string {
@@ -168,6 +214,8 @@ func (propC20) Check(c *Case) (*Violation, *RunInfo) {
 		ri.count("nil_items_in_original", 1)
 	}
 	actors := []*cloneActor{root}
+	invalid := map[int]bool{} // actors whose chain contains a struct tag: not a Go expression any more
+	tagged := map[int]bool{}  // at most one Tag per actor (two consecutive tags of one owner are no valid field either way)
 	hasTokensBelow := func(ai int) bool { // some descendant of ai already has tokens of its own
 		for i, x := range actors {
 			for p := x.parent; p >= 0; p = actors[p].parent {
@@ -196,12 +244,30 @@ func (propC20) Check(c *Case) (*Violation, *RunInfo) {
 	var nowTokens [][]string
 	checkAll := func(step int, what string) *Violation {
 		nowTokens = make([][]string, len(actors))
-		for i, a := range actors {
-			out, err := render(a)
-			if err != nil {
-				return &Violation{Rule: "C20-render-failed", Op: step, Detail: fmt.Sprintf("after step %d (%s): actor %d does not render: %v", step, what, i, err)}
+		for i, a := range actors { // a clone may render its parent's current tokens: invalidity is inherited
+			if a.parent >= 0 && invalid[a.parent] {
+				invalid[i] = true
 			}
-			got := scanTokens(out)
+		}
+		for i, a := range actors {
+			var got []string
+			if invalid[i] {
+				// the chain is deliberately not an expression (a struct tag in it): observed raw only
+				var err error
+				got, err = rawTokens(a.st)
+				if err != nil {
+					return &Violation{Rule: "C20-render-failed", Op: step, Detail: fmt.Sprintf("after step %d (%s): actor %d does not render (NoFormat File): %v", step, what, i, err)}
+				}
+			} else {
+				out, err := render(a)
+				if err != nil {
+					return &Violation{Rule: "C20-render-failed", Op: step, Detail: fmt.Sprintf("after step %d (%s): actor %d does not render: %v", step, what, i, err)}
+				}
+				got = scanTokens(out)
+				if raw, err := rawTokens(a.st); err != nil || strings.Join(raw, " ") != strings.Join(got, " ") {
+					return &Violation{Rule: "C20-tokens-corrupted", Op: step, Detail: fmt.Sprintf("after step %d (%s): actor %d renders %q formatted but %q inside a NoFormat File (err=%v)", step, what, i, strings.Join(got, " "), strings.Join(raw, " "), err)}
+				}
+			}
 			nowTokens[i] = got
 			var wants [][]string
 			if a.parent < 0 {
@@ -251,6 +317,18 @@ func (propC20) Check(c *Case) (*Violation, *RunInfo) {
 		case "nil":
 			*a.st = append(*a.st, nil)
 			a.appended = true
+		case "tag":
+			if tagged[ai] {
+				continue
+			}
+			n := next()
+			a.st.Tag(map[string]string{n: "v"})
+			a.own = append(a.own, "`"+n+`:"v"`+"`")
+			a.appended = true
+			tagged[ai] = true
+			// this actor and everything cloned from it from now on (or following it) is no expression
+			invalid[ai] = true
+			ri.count("struct_tags_appended", 1)
 		case "spread":
 			// the original's items spread into this actor: x.Op("+").Add(*orig...)
 			if len(root.own) == 0 || a == root {
@@ -264,19 +342,32 @@ func (propC20) Check(c *Case) (*Violation, *RunInfo) {
 			if a.depth >= 3 {
 				continue
 			}
-			before, _ := render(a)
 			spare := cap(*a.st) > len(*a.st)
-			cl := &cloneActor{st: a.st.Clone(), parent: ai, depth: a.depth + 1, atClone: scanTokens(before), spare: spare}
+			cl := &cloneActor{st: a.st.Clone(), parent: ai, depth: a.depth + 1, atClone: append([]string{}, nowTokens[ai]...), spare: spare}
 			actors = append(actors, cl)
+			if invalid[ai] {
+				invalid[len(actors)-1] = true
+			}
 			if spare {
 				ri.count("capacity_spare_at_clone", 1)
 			} else {
 				ri.count("capacity_exhausted_at_clone", 1)
 			}
-			after, err := render(cl)
-			if err != nil || !bytes.Equal(before, after) {
-				return &Violation{Rule: "C20-fresh-clone-differs", Op: si, Detail: fmt.Sprintf("step %d: a clone of actor %d taken just now renders %q, its original %q (err=%v)", si, ai, after, before, err),
-					Expected: string(before), Observed: string(after)}, ri
+			// an unmodified clone renders exactly like its original
+			if invalid[ai] {
+				pt, perr := rawTokens(a.st)
+				ct, cerr := rawTokens(cl.st)
+				if perr != nil || cerr != nil || strings.Join(pt, " ") != strings.Join(ct, " ") {
+					return &Violation{Rule: "C20-fresh-clone-differs", Op: si, Detail: fmt.Sprintf("step %d: a clone of actor %d taken just now renders %q, its original %q (errs %v %v)", si, ai, strings.Join(ct, " "), strings.Join(pt, " "), cerr, perr),
+						Expected: strings.Join(pt, " "), Observed: strings.Join(ct, " ")}, ri
+				}
+			} else {
+				before, _ := render(a)
+				after, err := render(cl)
+				if err != nil || !bytes.Equal(before, after) {
+					return &Violation{Rule: "C20-fresh-clone-differs", Op: si, Detail: fmt.Sprintf("step %d: a clone of actor %d taken just now renders %q, its original %q (err=%v)", si, ai, after, before, err),
+						Expected: string(before), Observed: string(after)}, ri
+				}
 			}
 			trace = append(trace, fmt.Sprintf("clone:%d:%v", ai, spare))
 			ri.count("clones", 1)
